@@ -29,6 +29,7 @@ struct Runner : Exec<P, OFFSET>
 {
   typedef Exec<P, OFFSET> E;
   typedef typename P::T T;
+  typedef typename E::H H;
   using E::h;
   using E::m;
 
@@ -107,7 +108,7 @@ struct Runner : Exec<P, OFFSET>
     if (!fail().set) {
       for (int i = 0; i < 3; i++)
         if (h[i]) {
-          h[i]->~Holder();
+          h[i]->~H();
           free(h[i]);
           h[i] = nullptr;
         }
